@@ -6,7 +6,7 @@
 # run_seeded.py / try_patch.sh, which apply the patch to /repo itself.
 # VERIF_SEED is passed through. `tools/mirror_try.sh clean` removes the mirror.
 set -u
-M=/tmp/ivpmirror
+M=${MIRROR:-/tmp/ivpmirror}
 if [ "${1:-}" = "clean" ]; then git -C /repo worktree remove --force $M/repo 2>/dev/null; rm -rf $M; exit 0; fi
 patch="$1"; tier="$2"; shift 2
 [ "$patch" != "none" ] && patch="$(realpath "$patch")"
